@@ -343,7 +343,7 @@ INTS = {
 ENV_INTS = ["U8", "U16BE", "U16LE", "U32BE", "U32LE", "I8", "I16BE", "I16LE", "I32BE", "I32LE", "U24", "I40", "U64",
             "U8om", "I8neg"]
 ENV_ATOMS = ENV_INTS + ["B1", "B4", "S1", "S3", "SpareL", "BufL", "BufFlex", "FLG", "OptU16", "OptB2", "OptBFS", "OptBFS16L",
-                        "OptS2", "OptNEST", "OptSEQ", "BFS16L", "BFS24P", "NEST", "NESTF", "SEQ"]
+                        "OptS2", "OptNEST", "OptSEQ", "OptLV", "BFS16L", "BFS24P", "NEST", "NESTF", "SEQ"]
 TRAILING_ONLY = ("BufFlex", "NESTF", "SEQ", "OptSEQ")
 
 
@@ -400,6 +400,13 @@ def atom(kind, i, st):
         if not st.get("flag"):
             return None
         return [{"t": "buf", "n": n, "len": 2, "opt": st["flag"], "kind": kind}]
+    if kind == "OptLV":
+        # a length field and the buffer it drives, BOTH optional behind the same flag
+        if not st.get("flag"):
+            return None
+        ld = int_desc("U8", "l%d" % i)
+        ld.update(opt=st["flag"], derive=["len", n], kind="OptLV(length)")
+        return [ld, {"t": "buf", "n": n, "lref": ld["n"], "opt": st["flag"], "kind": kind}]
     # every field class also occurs with a presence callback (keyed on the nearest earlier flag)
     if kind in ("OptBFS", "OptBFS16L", "OptS2", "OptNEST", "OptSEQ"):
         if not st.get("flag"):
@@ -551,7 +558,9 @@ def seq_desc(prog):
 ALIAS_PROGRAMS = ["two-fields", "three-fields", "two-fields-flex", "seq-item-shared", "nested-shared",
                   "seq-nested-ref", "seq-nested-fix", "seq-in-shared",
                   # an optional bit-field set inside a nested envelope / inside a sequence item
-                  "opt-bits-nested-flex", "opt-bits-nested-ref", "opt-bits-seq-item"]
+                  "opt-bits-nested-flex", "opt-bits-nested-ref", "opt-bits-seq-item",
+                  # an optional length field + the optional buffer it drives, one and two nesting levels down
+                  "opt-lv-nested-flex", "opt-lv-nested-ref", "opt-lv-seq-item", "opt-lv-nested2"]
 
 
 def alias_desc(prog):
@@ -615,6 +624,28 @@ def alias_desc(prog):
         if name == "opt-bits-seq-item":
             return [int_desc("U8", "pre"), {"t": "seq", "n": "s", "len": 0, "item": flagged(2), "kind": "sequence-of-optional",
                                            "_full": True}]
+    if name.startswith("opt-lv"):
+        def flagged_lv(i):
+            ld = int_desc("U8", "l%d" % i)
+            ld.update(opt="g%d" % i, derive=["len", "d%d" % i], kind="OptLV(length)")
+            return [{"t": "bits", "parts": [["g%d" % i, 1, None], [None, 2, None], ["v%d" % i, 5, None]], "kind": "FLG"},
+                    ld, {"t": "buf", "n": "d%d" % i, "lref": "l%d" % i, "opt": "g%d" % i, "kind": "OptLV(nested)"}]
+        if name == "opt-lv-nested-flex":
+            return [int_desc("U8", "pre"), {"t": "env", "n": "n", "len": 0, "fields": flagged_lv(1) + [int_desc("U8", "z")],
+                                           "kind": "nested:flex"}]
+        if name == "opt-lv-nested-ref":
+            ld = int_desc("U16BE", "l")
+            ld["derive"] = ["enclen", "n"]
+            ld["kind"] = "U16BE(length)"
+            return [ld, {"t": "env", "n": "n", "len": 0, "lref": "l", "fields": flagged_lv(1), "kind": "nested:ref"},
+                    int_desc("U16BE", "post")]
+        if name == "opt-lv-seq-item":
+            return [int_desc("U8", "pre"), {"t": "seq", "n": "s", "len": 0, "item": flagged_lv(2), "kind": "sequence-of-optional",
+                                           "_full": True}]
+        if name == "opt-lv-nested2":
+            inner = {"t": "env", "n": "m", "len": 0, "fields": flagged_lv(3), "kind": "nested:flex"}
+            return [int_desc("U8", "pre"), {"t": "env", "n": "n", "len": 0, "fields": [int_desc("U8", "h"), inner],
+                                           "kind": "nested:flex"}]
     raise HarnessError("alias program %r" % (prog,))
 
 
@@ -866,6 +897,34 @@ def extreme_assignments(descs, limit):
     return out[:limit]
 
 
+def foreign_buffer(v, path=""):
+    """(path, type name) of the first decoded leaf that is neither an int nor a bytes / bytearray object"""
+    if isinstance(v, dict):
+        for k, x in v.items():
+            r = foreign_buffer(x, "%s/%s" % (path, k))
+            if r:
+                return r
+    elif isinstance(v, list):
+        for i, x in enumerate(v[:8]):
+            r = foreign_buffer(x, "%s/%d" % (path, i))
+            if r:
+                return r
+    elif type(v) not in (int, bytes, bytearray):
+        return (path, type(v).__name__)
+    return None
+
+
+def freeze(v):
+    """deep copy with every buffer turned into bytes (a view into somebody else's memory is read NOW)"""
+    if isinstance(v, dict):
+        return {k: freeze(x) for k, x in v.items()}
+    if isinstance(v, list):
+        return [freeze(x) for x in v]
+    if isinstance(v, int):
+        return v
+    return bytes(v)
+
+
 def has_nested(descs):
     return any(f["t"] in ("env", "seq") for f in descs)
 
@@ -1041,6 +1100,32 @@ class Judge:
                 if again is not None and again != b1:
                     self.viol("aliasing:reencode-history", self.struct_kind,
                               "re-encoding the kept first result gives %s, expected %s" % (again.hex(), b1.hex()))
+        # the caller's input buffer is reused: decode from a bytearray, keep the values, refill the bytearray in
+        # place (next datagram, then zeros): the values must not change and must still re-encode to b1
+        try:
+            buf = bytearray(b1)
+            E.from_bytes(buf)
+            kept = dict(E.c)
+            snap = freeze(kept)
+            for fill in ((b2 + bytes(len(b1)))[:len(b1)], bytes(len(b1)), bytes(b ^ 0xff for b in b1)):
+                buf[:] = fill
+            changed = freeze(kept) != snap
+            again = None
+            if not changed:
+                E.c = kept
+                again = bytes(E.to_bytes())
+        except Exception as ex:
+            self.viol("aliasing:input-buffer-raises-" + type(ex).__name__, self.struct_kind,
+                      "from_bytes(bytearray %s), refill of the bytearray, re-encode: raised %s" % (b1.hex(), root_cause(ex)))
+        else:
+            if changed:
+                self.viol("aliasing:input-buffer", self.struct_kind,
+                          "values decoded from a bytearray holding %s changed from %r to %r when the caller refilled "
+                          "that bytearray in place" % (b1.hex(), snap, freeze(kept)))
+            elif again != b1:
+                self.viol("aliasing:input-buffer-reencode", self.struct_kind,
+                          "values decoded from a bytearray holding %s re-encode to %s after the bytearray was refilled"
+                          % (b1.hex(), again.hex()))
         try:
             E.c = deep_copy(v1)
             o1 = E.to_bytes()
@@ -1122,6 +1207,11 @@ class Judge:
             self.viol("decode-rejected" if r[0] == "err" else "decode-raises-" + r[1], "any",
                       "from_bytes(%s) failed, expected %r" % (ref.hex(), exp))
             return
+        bad = foreign_buffer(r[1])
+        if bad is not None:
+            self.viol("aliasing:buffer-type", self.struct_kind,
+                      "from_bytes(%s): the decoded value at %s is a %s, not a bytes / bytearray object of its own"
+                      % (ref.hex(), bad[0], bad[1]))
         if self.nested:
             dup = shared_object(r[1])
             if dup is not None:
